@@ -176,15 +176,19 @@ def string_replace_map(line, lower=False):
     items = []
     string_map = StringReplaceDict()
     rev_string_map = {}
+    rev_quote_map = {}
+    rev_paren_map = {}
     for item in splitquote(line, lower=lower)[0]:
         if isinstance(item, String) and not _is_simple_str(item[1:-1]):
-            key = rev_string_map.get(item)
+            # The map is keyed on the text between the quotes (the
+            # delimiters are kept in the line).
+            trimmed = item[1:-1]
+            key = rev_quote_map.get(trimmed)
             if key is None:
                 str_idx += 1
                 key = "_F2PY_STRING_CONSTANT_{0}_".format(str_idx)
-                trimmed = item[1:-1]
                 string_map[key] = trimmed
-                rev_string_map[trimmed] = key
+                rev_quote_map[trimmed] = key
             items.append(item[0] + key + item[-1])
         else:
             items.append(item)
@@ -209,13 +213,15 @@ def string_replace_map(line, lower=False):
     expr_keys = []
     for item in splitparen(newline):
         if isinstance(item, ParenString) and not _is_name(item[1:-1].strip()):
-            key = rev_string_map.get(item)
+            # The map is keyed on the text between the brackets (the
+            # brackets themselves are kept in the line).
+            trimmed = item[1:-1].strip()
+            key = rev_paren_map.get(trimmed)
             if key is None:
                 parens_idx += 1
                 key = "F2PY_EXPR_TUPLE_{0}".format(parens_idx)
-                trimmed = item[1:-1].strip()
                 string_map[key] = trimmed
-                rev_string_map[trimmed] = key
+                rev_paren_map[trimmed] = key
                 expr_keys.append(key)
             items.append(item[0] + key + item[-1])
         else:
